@@ -325,7 +325,7 @@ class Check:
 
     def disagreement(self, rec, verdict, replayer=None):
         """a candidate violation: confirm by re-execution in a fresh process, then classify"""
-        if replayer is not None:
+        if replayer is not None and len(self.violations) < 8:
             v2 = replayer.single(rec)
             if v2.get('v') == 'ok':
                 log('candidate on line %s not reproduced on re-execution; ignored (flaky?)' % rec.get('i'))
@@ -372,7 +372,7 @@ class Check:
                 continue
             seen.add(h)
             path = '%s/replays/%s-%s.json' % (VERIF, self.pid, h)
-            if len(vio_paths) < 25:
+            if len(vio_paths) < 5:
                 json.dump({'property': self.pid, 'line': r, 'verdict': verdict, 'tier': self.tier, 'seed': self.seed},
                           open(path, 'w'), indent=1)
                 print('VIOLATION property=%s replay=%s' % (self.pid, path))
